@@ -1,5 +1,7 @@
 import Qats.Model.Dist
 import Qats.Lemmas.RealOps
+import Qats.Lemmas.DistOps
+import Qats.Lemmas.DistWeibull
 import Mathlib.Tactic
 import Mathlib.Analysis.SpecialFunctions.Gamma.Basic
 import Mathlib.Analysis.SpecialFunctions.Gaussian.GaussianIntegral
@@ -7,42 +9,74 @@ import Mathlib.MeasureTheory.Integral.Gamma
 /-!
 Main lemmas behind the C15 and C17 property theorems (statements fixed by `Qats/Props/C15.lean`, `C17.lean`).
 All over ℝ, about the generated formulas `Qats.Gen.wb_*`, `gu_*`, `gm_*`, `ecdf_*`, `w2g_*`, `wfw_*`.
+The generated formulas are only ever accessed through the restating lemmas `*_eq` / `*_mirror` of
+`Qats/Lemmas/DistOps.lean`; the Weibull moment integral is in `Qats/Lemmas/DistWeibull.lean`.
 -/
 namespace Qats.Dist
 open Qats Qats.Gen
+
+-- The statements are fixed by `Qats/Props/C15.lean`, `C17.lean`; some of their hypotheses are not needed.
+set_option linter.unusedVariables false
 
 /-! ### Weibull (scale > 0, shape > 0, support x ≥ loc) -/
 
 theorem wb_cdf_mono' (loc scale shape x y : ℝ) (hs : 0 < scale) (hc : 0 < shape) (hx : loc ≤ x) (hxy : x ≤ y) :
     wb_cdf loc scale shape x ≤ wb_cdf loc scale shape y := by
-  sorry
+  rw [wb_cdf_eq, wb_cdf_eq]
+  have hzx : 0 ≤ (x - loc) / scale := div_nonneg (sub_nonneg.2 hx) hs.le
+  have hzxy : (x - loc) / scale ≤ (y - loc) / scale :=
+    div_le_div_of_nonneg_right (by linarith) hs.le
+  have h1 := Real.rpow_le_rpow hzx hzxy hc.le
+  have h2 := Real.exp_le_exp.2 (neg_le_neg h1)
+  linarith
 
 theorem wb_cdf_range' (loc scale shape x : ℝ) (hs : 0 < scale) (hc : 0 < shape) (hx : loc ≤ x) :
     0 ≤ wb_cdf loc scale shape x ∧ wb_cdf loc scale shape x < 1 := by
-  sorry
+  rw [wb_cdf_eq]
+  have hzx : 0 ≤ (x - loc) / scale := div_nonneg (sub_nonneg.2 hx) hs.le
+  have h0 : 0 ≤ ((x - loc) / scale) ^ shape := Real.rpow_nonneg hzx _
+  have h1 : Real.exp (-((x - loc) / scale) ^ shape) ≤ 1 := Real.exp_le_one_iff.2 (by linarith)
+  have h2 := Real.exp_pos (-((x - loc) / scale) ^ shape)
+  constructor <;> linarith
 
 theorem wb_cdf_loc' (loc scale shape : ℝ) (hs : 0 < scale) (hc : 0 < shape) : wb_cdf loc scale shape loc = 0 := by
-  sorry
+  rw [wb_cdf_eq, sub_self, zero_div, Real.zero_rpow hc.ne', neg_zero, Real.exp_zero, sub_self]
 
 theorem wb_invcdf_cdf' (loc scale shape x : ℝ) (hs : 0 < scale) (hc : 0 < shape) (hx : loc ≤ x) :
     wb_invcdf loc (wb_cdf loc scale shape x) scale shape = x := by
-  sorry
+  rw [wb_invcdf_eq, wb_cdf_eq]
+  have hzx : 0 ≤ (x - loc) / scale := div_nonneg (sub_nonneg.2 hx) hs.le
+  rw [sub_sub_cancel, Real.log_exp, neg_neg, one_div, Real.rpow_rpow_inv hzx hc.ne']
+  field_simp
+  ring
 
 theorem wb_cdf_invcdf' (loc scale shape p : ℝ) (hs : 0 < scale) (hc : 0 < shape) (hp0 : 0 ≤ p) (hp1 : p < 1) :
     wb_cdf loc scale shape (wb_invcdf loc p scale shape) = p := by
-  sorry
+  rw [wb_cdf_eq, wb_invcdf_eq]
+  have hL : 0 ≤ -Real.log (1 - p) := neg_nonneg.2 (Real.log_nonpos (by linarith) (by linarith))
+  have e : (loc + scale * (-Real.log (1 - p)) ^ (1 / shape) - loc) / scale = (-Real.log (1 - p)) ^ shape⁻¹ := by
+    rw [one_div]; field_simp; ring
+  rw [e, Real.rpow_inv_rpow hL hc.ne', neg_neg, Real.exp_log (by linarith)]
+  ring
 
 theorem wb_invcdf_zero' (loc scale shape : ℝ) (hc : 0 < shape) : wb_invcdf loc 0 scale shape = loc := by
-  sorry
+  rw [wb_invcdf_eq, sub_zero, Real.log_one, neg_zero, Real.zero_rpow (one_div_ne_zero hc.ne'), mul_zero, add_zero]
 
 theorem wb_pdf_hasDerivAt' (loc scale shape x : ℝ) (hs : 0 < scale) (hc : 0 < shape) (hx : loc < x) :
     HasDerivAt (fun u => wb_cdf loc scale shape u) (wb_pdf loc scale shape x) x := by
-  sorry
+  simp only [wb_cdf_eq, wb_pdf_eq]
+  have hz : (x - loc) / scale ≠ 0 := (div_pos (sub_pos.2 hx) hs).ne'
+  have h1 : HasDerivAt (fun u : ℝ => (u - loc) / scale) (1 / scale) x :=
+    ((hasDerivAt_id x).sub_const loc).div_const scale
+  have h2 := ((h1.rpow_const (p := shape) (Or.inl hz)).fun_neg.exp).const_sub 1
+  refine h2.congr_deriv ?_
+  ring
 
 /-- Raw moments of the standardised variable: `∫ ((x-loc)/scale)^k f(x) dx = Γ(1 + k/shape)`. -/
 theorem wb_raw_moment' (loc scale shape k : ℝ) (hs : 0 < scale) (hc : 0 < shape) (hk : 0 ≤ k) :
     ∫ x in Set.Ioi loc, ((x - loc) / scale) ^ k * wb_pdf loc scale shape x = Real.Gamma (1 + k / shape) := by
-  sorry
+  simp only [wb_pdf_eq]
+  exact wb_moment_integral_shift hs hc hk
 
 /-- The reported moments are the textbook expressions in the raw moments `μ_k = Γ(1 + k/shape)`. -/
 theorem wb_moments_algebra' (loc scale shape : ℝ) (hs : 0 < scale) (hc : 0 < shape)
@@ -51,32 +85,58 @@ theorem wb_moments_algebra' (loc scale shape : ℝ) (hs : 0 < scale) (hc : 0 < s
     wb_std scale shape = scale * Real.sqrt (μ 2 - μ 1 ^ 2) ∧
     wb_skew shape = (μ 3 - 3 * μ 1 * μ 2 + 2 * μ 1 ^ 3) / (μ 2 - μ 1 ^ 2) ^ (3 / 2 : ℝ) ∧
     wb_kurt shape = (μ 4 - 4 * μ 1 * μ 3 + 6 * μ 1 ^ 2 * μ 2 - 3 * μ 1 ^ 4) / (μ 2 - μ 1 ^ 2) ^ 2 := by
-  sorry
+  rw [hμ 1, hμ 2, hμ 3, hμ 4]
+  exact ⟨wb_mean_eq _ _ _, wb_std_eq _ _, wb_skew_eq _, wb_kurt_eq _⟩
 
 /-! ### Gumbel maxima / minima (scale > 0) -/
 
 theorem gu_cdf_strictMono' (loc scale : ℝ) (hs : 0 < scale) : StrictMono (fun x => gu_cdf loc scale x) := by
-  sorry
+  intro x y hxy
+  simp only [gu_cdf_eq]
+  have h1 : (x - loc) / scale < (y - loc) / scale := div_lt_div_of_pos_right (by linarith) hs
+  exact Real.exp_lt_exp.2 (neg_lt_neg (Real.exp_lt_exp.2 (neg_lt_neg h1)))
 
 theorem gu_cdf_range' (loc scale x : ℝ) : 0 < gu_cdf loc scale x ∧ gu_cdf loc scale x < 1 := by
-  sorry
+  rw [gu_cdf_eq]
+  exact ⟨Real.exp_pos _, Real.exp_lt_one_iff.2 (neg_lt_zero.2 (Real.exp_pos _))⟩
 
 theorem gu_invcdf_cdf' (loc scale x : ℝ) (hs : 0 < scale) : gu_invcdf loc (gu_cdf loc scale x) scale = x := by
-  sorry
+  rw [gu_invcdf_eq, gu_cdf_eq, Real.log_exp, neg_neg, Real.log_exp]
+  field_simp
+  ring
 
 theorem gu_cdf_invcdf' (loc scale p : ℝ) (hs : 0 < scale) (hp0 : 0 < p) (hp1 : p < 1) :
     gu_cdf loc scale (gu_invcdf loc p scale) = p := by
-  sorry
+  rw [gu_cdf_eq, gu_invcdf_eq]
+  have hL : 0 < -Real.log p := neg_pos.2 (Real.log_neg hp0 hp1)
+  have e : -((loc - scale * Real.log (-Real.log p) - loc) / scale) = Real.log (-Real.log p) := by
+    field_simp; ring
+  rw [e, Real.exp_log hL, neg_neg, Real.exp_log hp0]
 
 theorem gu_pdf_hasDerivAt' (loc scale x : ℝ) (hs : 0 < scale) :
     HasDerivAt (fun u => gu_cdf loc scale u) (gu_pdf loc scale x) x := by
-  sorry
+  simp only [gu_cdf_eq, gu_pdf_eq]
+  have h1 : HasDerivAt (fun u : ℝ => (u - loc) / scale) (1 / scale) x :=
+    ((hasDerivAt_id x).sub_const loc).div_const scale
+  have h2 := h1.fun_neg.exp.fun_neg.exp
+  refine h2.congr_deriv ?_
+  rw [sub_eq_add_neg (-((x - loc) / scale)), Real.exp_add]
+  ring
 
 theorem gu_median' (loc scale : ℝ) (hs : 0 < scale) : gu_cdf loc scale (gu_median loc scale) = 1 / 2 := by
-  sorry
+  rw [gu_cdf_eq, gu_median_eq]
+  have hL : 0 < Real.log 2 := Real.log_pos (by norm_num)
+  have e : -((loc - scale * Real.log (Real.log 2) - loc) / scale) = Real.log (Real.log 2) := by
+    field_simp; ring
+  rw [e, Real.exp_log hL, Real.exp_neg, Real.exp_log (by norm_num)]
+  norm_num
 
 theorem gu_mode' (loc scale x : ℝ) (hs : 0 < scale) : gu_pdf loc scale x ≤ gu_pdf loc scale (gu_mode loc) := by
-  sorry
+  rw [gu_pdf_eq, gu_pdf_eq, gu_mode_eq, sub_self, zero_div, neg_zero, Real.exp_zero]
+  have h := Real.add_one_le_exp (-((x - loc) / scale))
+  have h2 : Real.exp (-((x - loc) / scale) - Real.exp (-((x - loc) / scale))) ≤ Real.exp (0 - 1) :=
+    Real.exp_le_exp.2 (by linarith)
+  exact mul_le_mul_of_nonneg_left h2 (by positivity)
 
 /-- The minimum distribution is the mirror image of the maximum distribution. -/
 theorem gm_mirror' (loc scale x p : ℝ) (hs : 0 < scale) :
@@ -89,13 +149,34 @@ theorem gm_mirror' (loc scale x p : ℝ) (hs : 0 < scale) :
     gm_std scale = gu_std scale ∧
     (gm_skew : ℝ) = -gu_skew ∧
     (gm_kurt : ℝ) = gu_kurt := by
-  sorry
+  have e : -((-x - -loc) / scale) = (x - loc) / scale := by ring
+  refine ⟨?_, ?_, ?_, gm_mean_mirror loc scale, ?_, ?_, gm_std_mirror scale, gm_skew_mirror, gm_kurt_mirror⟩
+  · rw [gm_cdf_eq, gu_cdf_eq, e]
+  · rw [gm_pdf_eq, gu_pdf_eq, e]
+  · rw [gm_invcdf_eq, gu_invcdf_eq]; ring
+  · rw [gm_median_eq, gu_median_eq]; ring
+  · rw [gm_mode_eq, gu_mode_eq]; ring
 
 /-- The mask skeleton of `invcdf` (all three distributions): 1 ↦ +∞, outside [0,1] ↦ nan, otherwise the formula. -/
 theorem invMask_spec' (f : ℝ → ℝ) (p : ℝ) :
     (p = 1 → invMask f p = .posInf) ∧ ((p < 0 ∨ 1 < p) → invMask f p = .nan) ∧
       (0 ≤ p ∧ p < 1 → invMask f p = .val (f p)) := by
-  sorry
+  have e0 : (0.0 : ℝ) = 0 := by norm_num
+  have e1 : (1.0 : ℝ) = 1 := by norm_num
+  unfold invMask
+  rw [e0, e1]
+  refine ⟨?_, ?_, ?_⟩
+  · rintro rfl
+    simp
+  · intro h
+    rw [if_neg (by rcases h with h | h <;> [exact fun h' => absurd h'.1 (not_le.2 h); exact fun h' => absurd h'.2 (not_lt.2 h.le)]), if_pos h]
+  · intro h
+    rw [if_pos h]
+
+theorem ecdf_aux (a b i n : ℝ) (ha : a < 1) (hab : 0 < a + b) (hi : 1 ≤ i) (hin : i ≤ n) :
+    0 < (i - a) / (n + b) ∧ (i - a) / (n + b) < 1 ∧ (i - a) / (n + b) < (i + 1 - a) / (n + b) := by
+  have hd : 0 < n + b := by linarith
+  refine ⟨div_pos (by linarith) hd, (div_lt_one hd).2 (by linarith), div_lt_div_of_pos_right (by linarith) hd⟩
 
 /-- Plotting positions lie strictly inside (0,1) and increase with the rank. -/
 theorem ecdf_spec' (n i : ℝ) (hi : 1 ≤ i) (hin : i ≤ n) :
@@ -104,20 +185,39 @@ theorem ecdf_spec' (n i : ℝ) (hi : 1 ≤ i) (hin : i ≤ n) :
     (0 < ecdf_symmetrical i n ∧ ecdf_symmetrical i n < 1 ∧ ecdf_symmetrical i n < ecdf_symmetrical (i + 1) n) ∧
     (0 < ecdf_beard i n ∧ ecdf_beard i n < 1 ∧ ecdf_beard i n < ecdf_beard (i + 1) n) ∧
     (0 < ecdf_gringorten i n ∧ ecdf_gringorten i n < 1 ∧ ecdf_gringorten i n < ecdf_gringorten (i + 1) n) := by
-  sorry
+  simp only [ecdf_mean_eq, ecdf_median_eq, ecdf_symmetrical_eq, ecdf_beard_eq, ecdf_gringorten_eq]
+  refine ⟨?_, ecdf_aux _ _ i n (by norm_num) (by norm_num) hi hin, ?_,
+    ecdf_aux _ _ i n (by norm_num) (by norm_num) hi hin, ecdf_aux _ _ i n (by norm_num) (by norm_num) hi hin⟩
+  · simpa using ecdf_aux 0 1 i n (by norm_num) (by norm_num) hi hin
+  · simpa using ecdf_aux (1 / 2) 0 i n (by norm_num) (by norm_num) hi hin
 
 /-! ### C17: Gumbel from Weibull -/
 
 theorem gloc_is_quantile' (loc scale shape n : ℝ) (hn : 1 < n) :
     w2g_loc loc n scale shape = wb_invcdf loc (1 - 1 / n) scale shape := by
-  sorry
+  rw [w2g_loc_eq, wb_invcdf_eq, sub_sub_cancel, one_div n, Real.log_inv, neg_neg]
 
 theorem gscale_is_inverse_intensity' (loc scale shape n : ℝ) (hs : 0 < scale) (hc : 0 < shape) (hn : 1 < n) :
     w2g_scale n scale shape = 1 / (n * wb_pdf loc scale shape (w2g_loc loc n scale shape)) := by
-  sorry
+  rw [w2g_scale_eq, wb_pdf_eq, w2g_loc_eq]
+  have hn0 : 0 < n := by linarith
+  have hL : 0 ≤ Real.log n := (Real.log_pos hn).le
+  have e : (loc + scale * Real.log n ^ (1 / shape) - loc) / scale = Real.log n ^ shape⁻¹ := by
+    rw [one_div]; field_simp; ring
+  have e2 : (Real.log n ^ shape⁻¹) ^ (shape - 1) = Real.log n ^ ((shape - 1) / shape) := by
+    rw [← Real.rpow_mul hL]; congr 1; field_simp
+  rw [e, Real.rpow_inv_rpow hL hc.ne', e2, Real.exp_neg, Real.exp_log hn0]
+  congr 1
+  field_simp
 
 theorem entry_points_agree' (loc scale shape n : ℝ) (hs : 0 < scale) (hc : 0 < shape) (hn : 1 < n) :
     wfw_loc n loc scale shape = w2g_loc loc n scale shape ∧ wfw_scale n scale shape = w2g_scale n scale shape := by
-  sorry
+  have hL : 0 ≤ Real.log n := (Real.log_pos hn).le
+  refine ⟨by rw [wfw_loc_eq, w2g_loc_eq], ?_⟩
+  rw [wfw_scale_eq, w2g_scale_eq]
+  have e : Real.log n ^ ((1 - shape) / shape) = (Real.log n ^ ((shape - 1) / shape))⁻¹ := by
+    rw [← Real.rpow_neg hL]; congr 1; ring
+  rw [e]
+  field_simp
 
 end Qats.Dist
